@@ -215,7 +215,14 @@ impl<'a> G<'a> {
             })
             .collect();
         let fx = if bind_depth == 0 { self.node_fx() } else { vec![] };
-        BodySpec { alts, outers, export: bind_depth == 0 && self.r.chance(self.p.export_pct, 100), temp: self.r.chance(self.p.temp_pct, 100), fx }
+        let export = self.r.chance(if bind_depth == 0 { self.p.export_pct } else { self.p.export_pct / 2 }, 100);
+        let side = if export && bind_depth < 2 && self.r.chance(1, 4) {
+            let e = if self.r.chance(1, 2) { BodyExpr::Bind(Box::new(self.body_expr(2, bind_depth)), Box::new(self.body(bind_depth + 1))) } else { self.body_expr(1, bind_depth) };
+            Some(Box::new(e))
+        } else {
+            None
+        };
+        BodySpec { alts, outers, export, temp: self.r.chance(self.p.temp_pct, 100), side, fx }
     }
     fn cutoff(&mut self) -> CutoffSpec {
         if self.p.noneq_cutoffs {
